@@ -97,8 +97,10 @@ func (b *simLogBatch) encodeBytes() ([]byte, error) {
 		for i, o := range b.Offs {
 			io := o
 			if ver == 1 {
-				// relative inner offsets 0..n-1; holes inside a wrapper are not representable: callers keep wrappers dense
-				io = int64(i)
+				// relative inner offsets as the broker assigned them; a compacted wrapper keeps the surviving
+				// records' relative offsets (sparse), the wrapper carries the absolute offset of the last one
+				io = o - b.Offs[0]
+				_ = i
 			}
 			inner.Messages = append(inner.Messages, &MessageBlock{Offset: io, Msg: &Message{Version: ver, Key: simKey(o), Value: simValue(o), Timestamp: simRecTime(o)}})
 		}
